@@ -199,17 +199,18 @@ VariantSane ==
 
 \* adding the same amount to both sides preserves the verdict
 AddBothSides ==
+    LET ok == Accept(c) IN
     \A q \in 1..2 :
-        /\ Accept(c) <=> Accept([c EXCEPT !.fee = @ + q, !.ins[1].c = @ + q])
-        /\ Accept(c) <=> Accept([c EXCEPT !.wds = Append(@, q),
-                                          !.outs = Append(@, [c |-> q, a |-> 0])])
+        /\ ok <=> Accept([c EXCEPT !.fee = @ + q, !.ins[1].c = @ + q])
+        /\ ok <=> Accept([c EXCEPT !.wds = Append(@, q),
+                                   !.outs = Append(@, [c |-> q, a |-> 0])])
         /\ HasAssets(c.era) =>
-              /\ Accept(c) <=> Accept([c EXCEPT !.ins[1].a = @ + q,
-                                                !.outs = Append(@, [c |-> 0, a |-> q])])
-              /\ Accept(c) <=> Accept([c EXCEPT !.mint = @ + q,
-                                                !.outs = Append(@, [c |-> 0, a |-> q])])
+              /\ ok <=> Accept([c EXCEPT !.ins[1].a = @ + q,
+                                         !.outs = Append(@, [c |-> 0, a |-> q])])
+              /\ ok <=> Accept([c EXCEPT !.mint = @ + q,
+                                         !.outs = Append(@, [c |-> 0, a |-> q])])
         /\ HasGov(c.era) =>
-              Accept(c) <=> Accept([c EXCEPT !.don = @ + q, !.ins[1].c = @ + q])
+              ok <=> Accept([c EXCEPT !.don = @ + q, !.ins[1].c = @ + q])
 
 \* adding an amount to one side only turns an accepted transaction into a rejected one
 OneSideBreaks ==
@@ -223,18 +224,22 @@ Imbalance(t) == ConsumedCoin(t) - ProducedCoin(t)
 \* certificates that move no deposit do not move the balance; registration and
 \* deregistration of a credential cancel; a pool is paid for once
 CertAlgebra ==
-    /\ \A kd \in NeutralKinds :
-          Imbalance([c EXCEPT !.certs = Append(@, kd)]) = Imbalance(c)
-    /\ Imbalance([c EXCEPT !.certs = @ \o <<"stake_reg", "stake_dereg">>]) = Imbalance(c)
-    /\ Imbalance([c EXCEPT !.certs = Append(@, "stake_reg")]) = Imbalance(c) - c.pp.key
-    /\ Imbalance([c EXCEPT !.certs = Append(@, "stake_dereg")]) = Imbalance(c) + c.pp.key
+    LET im == Imbalance(c)
+        With(ks) == Imbalance([c EXCEPT !.certs = @ \o ks])
+    IN
+    /\ \A kd \in NeutralKinds : With(<<kd>>) = im
+    /\ With(<<"stake_reg", "stake_dereg">>) = im
+    /\ With(<<"stake_reg">>) = im - c.pp.key
+    /\ With(<<"stake_dereg">>) = im + c.pp.key
     /\ HasGov(c.era) =>
-          /\ Imbalance([c EXCEPT !.certs = @ \o <<"drep_reg", "drep_dereg">>]) = Imbalance(c)
-          /\ Imbalance([c EXCEPT !.certs = @ \o <<"reg_dep", "dereg_dep">>]) = Imbalance(c)
-    /\ LET once == [c EXCEPT !.certs = Append(@, "poolreg_newA")]
-           twice == [once EXCEPT !.certs = Append(@, "poolreg_newA")]
-       IN /\ Imbalance(twice) = Imbalance(once)
-          /\ Imbalance(once) = Imbalance(c) - (IF "poolreg_newA" \in Range(c.certs) THEN 0 ELSE c.pp.pool)
+          /\ With(<<"drep_reg", "drep_dereg">>) = im
+          /\ With(<<"reg_dep", "dereg_dep">>) = im
+          /\ With(<<"drep_reg">>) = im - c.pp.drep
+    /\ LET once == With(<<"poolreg_newA">>) IN
+          /\ With(<<"poolreg_newA", "poolreg_newA">>) = once
+          /\ once = im - (IF "poolreg_newA" \in Range(c.certs) THEN 0 ELSE c.pp.pool)
+          /\ With(<<"poolreg_newA", "poolreg_newB">>)
+                = once - (IF "poolreg_newB" \in Range(c.certs) THEN 0 ELSE c.pp.pool)
 
 \* nothing but a burn is negative; a transaction that burns more than it spends is never accepted
 Signs ==
